@@ -38,3 +38,70 @@ Definition v_list_refines := M_list_refines val val_eqb VInt vto_Z val_eqb_spec 
 Definition v_slice_refines := M_slice_refines val val_eqb VInt vto_Z val_eqb_spec vto_of vof_to.
 Definition v_auto_refines := M_auto_refines val val_eqb VInt vto_Z val_eqb_spec vto_of vof_to.
 Definition v_auto_bijection := M_auto_bijection val val_eqb VInt vto_Z val_eqb_spec vto_of vof_to.
+
+(* ---- grow-only ---- *)
+Require Import Proofs.IndexBijGO.
+
+Definition vgo_wf := go_wf val VInt.
+
+Lemma v_go_start_wf (g : go val) :
+  (exists l, M_go_init val_eqb l = Ok g) \/ (exists n, g = M_go_auto VInt n) -> vgo_wf g.
+Proof.
+  intros [[l H]|[n ->]].
+  - apply (go_wf_init val val_eqb VInt vto_Z val_eqb_spec vto_of vof_to l g H).
+  - apply (go_wf_auto val val_eqb VInt vto_Z val_eqb_spec vto_of vof_to n).
+Qed.
+
+Lemma v_go_history (g : go val) ops :
+  (exists l, M_go_init val_eqb l = Ok g) \/ (exists n, g = M_go_auto VInt n) ->
+  go_dom val_eqb vto_Z g ops = true ->
+  vgo_wf (fst (M_go_run val_eqb vto_Z g ops)) /\
+  (g_mut (fst (M_go_run val_eqb vto_Z g ops)), map is_ok (snd (M_go_run val_eqb vto_Z g ops)))
+    = S_go_run val_eqb (g_mut g) ops.
+Proof.
+  intros S D. apply (go_run_refines val val_eqb VInt vto_Z val_eqb_spec vto_of vof_to ops g); [|exact D].
+  apply v_go_start_wf. exact S.
+Qed.
+
+Definition v_go_labels_laws := S_go_run_laws val val_eqb VInt vto_Z val_eqb_spec vto_of vof_to.
+Definition v_go_observe := go_observe_refines val val_eqb VInt vto_Z val_eqb_spec vto_of vof_to.
+
+(* non-vacuity: a history inside the guard that promotes an auto-integer index to a mapped one *)
+Example go_dom_example :
+  go_dom val_eqb vto_Z (M_go_auto VInt 2)
+    [OpAppend (VInt 2, KInt); OpAppend (VStr "x", KOther); OpAppend (VInt 2, KInt); OpTouch;
+     OpExtend [(VInt 7, KInt); (VStr "x", KOther); (VInt 9, KInt)]] = true /\
+  S_go_run val_eqb (map VInt (iota 2))
+    [OpAppend (VInt 2, KInt); OpAppend (VStr "x", KOther); OpAppend (VInt 2, KInt); OpTouch;
+     OpExtend [(VInt 7, KInt); (VStr "x", KOther); (VInt 9, KInt)]]
+  = ([VInt 0; VInt 1; VInt 2; VStr "x"; VInt 7], [true; true; false; true; false]).
+Proof. vm_compute. split; reflexivity. Qed.
+
+Example auto_key_ok_example :
+  forallb (auto_key_ok val vto_Z 3) [(VInt 0, KInt); (VInt 2, KInt); (VInt 3, KInt); (VInt (-4), KInt); (VInt 1, KBool);
+                                       (VStr "a", KOther); (VFlt 1 2, KOther)] = true.
+Proof. reflexivity. Qed.
+
+(* ---- derivations ---- *)
+Require Import Proofs.IndexBijDerive.
+
+Lemma v_accepts_NoDup (l : list val) : (exists ix, M_index_init val_eqb l = Ok ix) <-> NoDup l.
+Proof.
+  split.
+  - intros [ix H]. apply (v_index_bijection l ix H).
+  - apply (v_index_accepts_iff l).
+Qed.
+
+Lemma v_derive_select (l : list val) ps l' : NoDup l -> S_select l ps = Some l' ->
+  ((exists ix, M_index_init val_eqb l' = Ok ix) <-> NoDup ps).
+Proof. intros ND H. rewrite v_accepts_NoDup. apply (select_NoDup val val_eqb val_eqb_spec l ps l' ND H). Qed.
+
+Lemma v_derive_drop (l : list val) ps : NoDup l ->
+  (exists ix, M_index_init val_eqb (S_drop l ps) = Ok ix) /\
+  forall x, In x (S_drop l ps) <-> exists j, nth_error l j = Some x /\ ~ In (Z.of_nat j) ps.
+Proof. intros ND. rewrite v_accepts_NoDup. apply (drop_spec val val_eqb val_eqb_spec l ps ND). Qed.
+
+Lemma v_derive_roll (l : list val) shift : NoDup l ->
+  (exists ix, M_index_init val_eqb (S_roll l shift) = Ok ix) /\
+  Permutation l (S_roll l shift) /\ length (S_roll l shift) = length l.
+Proof. intros ND. rewrite v_accepts_NoDup. split; [apply (roll_NoDup val val_eqb val_eqb_spec); exact ND | apply (roll_perm val val_eqb val_eqb_spec)]. Qed.
